@@ -114,9 +114,9 @@ def serialise(spec, rows, fasta_width=80):
     return "".join(out).encode("ascii")
 
 
-def body_matches(spec, rows, got):
+def body_matches(spec, rows, got, fasta_width=None):
     """is `got` (bytes) a canonical serialisation of rows?  -> (ok, message)"""
-    exp = serialise(spec, rows)
+    exp = serialise(spec, rows, fasta_width or 80)
     if not spec.has_float:
         if got == exp:
             return True, ""
